@@ -1084,9 +1084,15 @@ class Process(StateMachine, persistence.Savable, metaclass=ProcessStateMachineMe
         if self._closed:
             return
 
-        call_with_super_check(self.on_close)
+        with self._process_scope():
+            call_with_super_check(self.on_close)
 
     # region State related methods
+
+    def transition_to(self, new_state: Optional[state_machine.State], **kwargs: Any) -> None:
+        # The state entry/exit and termination hooks are process code: make this the current process while they run
+        with self._process_scope():
+            super().transition_to(new_state, **kwargs)
 
     def transition_failed(
         self,
@@ -1166,8 +1172,9 @@ class Process(StateMachine, persistence.Savable, metaclass=ProcessStateMachineMe
             else:
                 msg_text = state_msg[MESSAGE_TEXT_KEY]
 
-            call_with_super_check(self.on_pausing, msg_text)
-            call_with_super_check(self.on_paused, msg_text)
+            with self._process_scope():
+                call_with_super_check(self.on_pausing, msg_text)
+                call_with_super_check(self.on_paused, msg_text)
         finally:
             self._pausing = None
 
@@ -1227,7 +1234,8 @@ class Process(StateMachine, persistence.Savable, metaclass=ProcessStateMachineMe
                 self._pausing = None
             return True
 
-        call_with_super_check(self.on_playing)
+        with self._process_scope():
+            call_with_super_check(self.on_playing)
         return True
 
     @event(from_states=process_states.Waiting)
